@@ -41,4 +41,19 @@ CLAIMS.update({
               'C13_not_when_validation_demanded. Monitor mon_C13 (both directions, boundary instants) on the real transport each run.'),
         note=COMMON_NOTE),
 })
+CLAIMS.update({
+    'C06': dict(
+        text=('Theorems C06_storability_sound (every reply the property forbids to store is refused by the storability test), C06_miss / '
+              'C06_miss_is_the_code, C06_validation, C06_other_methods: for every request and every must-not-store origin reply '
+              '(no-store either side; not a plain GET; status 1xx/206/304; must-understand with a status not understood; no explicit '
+              'freshness and not heuristically cacheable; broken body) the program after the reply contains no entry write on any path. '
+              'Monitor mon_C06 checks every Set the real store receives (recording driver.Conn, statuses 100-599, body streams that fail) each run.'),
+        note=COMMON_NOTE),
+    'C11': dict(
+        text=('Theorems C11_status_exactly_one, C11_legacy (X-From-Cache "1" exactly for HIT/STALE/REVALIDATED, removed otherwise), '
+              'C11_served_fields / C11_swr_fields (one Age value = int(Seconds(age at this exchange)), replacing the origin\'s; HIT or STALE), '
+              'C11_hit_is_fresh (HIT only while spec age < spec lifetime), C11_age_exact (the age is RFC 9111 section 4.2.3 current_age when '
+              'the stored Age field is absent or digits and Date parses). Monitor mon_C11 compares Age with its own age computation within 1 s on the real transport.'),
+        note=COMMON_NOTE + ' int(Duration.Seconds()) is modelled with its IEEE rounding (seconds_trunc); its distance from d/1e9 (at most 1) is checked by the run, not proved.'),
+})
 NOT_YET = {}
